@@ -7,10 +7,11 @@ A result is a list of base rows plus
 * one *seen set* per ``unique()`` call (a filter view created from a result that
   already had ``unique()`` applied shares that set, as documented: "the unique
   filter is applied after all other filters"),
-* a closure flag ``open`` / ``hard`` / ``any`` (``any`` = consumed by
-  one()/one_or_none()/scalar_one*(), for which the documentation does not say
-  whether the object is hard closed: a later fetch may either raise
-  ``ResourceClosedError`` or report exhaustion; no row may be delivered),
+* a closure flag ``open`` / ``hard`` / ``any`` (``hard`` = close() was called:
+  every later fetch raises ResourceClosedError; ``any`` = consumed by
+  first()/one()/one_or_none()/scalar*(), for which the documentation does not
+  uniformly say whether the object is hard closed: a later fetch may either
+  raise ``ResourceClosedError`` or report exhaustion; no row may be delivered),
 * at most one live Python iterator obtained from the view (``hold``).
 
 *Facets*: ``b`` is the Result itself (after its in-place modifiers unique /
@@ -34,15 +35,22 @@ Nothing in here imports SQLAlchemy.  Outcomes are *normal forms*:
 
     ("det", new_state, expect)              exactly this outcome
     ("oneof", [(new_state, expect), ...])   any of these (closure left open by the docs)
-    ("open", items, states)                 fetchmany(None)/partitions(None) without
+    ("open", items, states, empty)          fetchmany(None)/partitions(None) without
         yield_per: "backend specific and not well defined" - any non-empty prefix
         items[:k] (k >= 1) is allowed, the state afterwards is states[k];
-        if there is nothing left, items == [] and states == [state_for_empty]
+        if there is nothing left, items == [] and the outcome must be ``empty``
+    ("openP", items, new_state)             list(partitions(None)) without yield_per:
+        non-empty partitions of unspecified sizes concatenating to items
+
+``apply(..., ignore_seen=True / scalar_row_unique=True)`` are the two deviations
+used by the driver to recognise known root causes (F1 / F4); they are never part
+of the expected behaviour.
 """
 from collections import namedtuple
 
 State = namedtuple("State", "pos closed seens hold")
-# closed: "open" | "hard" | "any";  seens: tuple of frozensets;  hold: bool
+# closed: "open" | "hard" | "any";  seens: tuple of frozensets
+# hold: 0 no live iterator, 1 iterator created but not started, 2 iterator delivered a row
 
 ONE_FAMILY = ("first", "one", "one_or_none", "scalar", "scalar_one", "scalar_one_or_none")
 RCE = ("X", "ResourceClosedError")
@@ -109,7 +117,7 @@ class Config:
         return self.view if target == "v" else self.base
 
     def initial(self):
-        return State(0, "open", tuple(frozenset() for _ in range(self.nsets)), False)
+        return State(0, "open", tuple(frozenset() for _ in range(self.nsets)), 0)
 
     # ---- projections
     def fields(self, F):
@@ -136,7 +144,7 @@ def canon(cfg, st):
     """canonical, future-determining part of a model state"""
     if st.pos >= cfg.n or st.closed != "open":
         # nothing left to deliver: seen sets can no longer be observed
-        return (cfg.n, st.closed, (), st.hold and st.closed == "open")
+        return (cfg.n, st.closed, (), st.hold if st.closed == "open" else 0)
     return (st.pos, st.closed, tuple(tuple(sorted(s, key=repr)) for s in st.seens), st.hold)
 
 
@@ -206,7 +214,7 @@ def apply(cfg, st, target, name, arg, ignore_seen=False, scalar_row_unique=False
     if name == "close":
         return ("det", st._replace(closed="hard", pos=n), ("0",))
     if name == "hold_new":
-        return ("det", st._replace(hold=True), ("0",))
+        return ("det", st._replace(hold=1), ("0",))
 
     # ---------------- size resolution for the "many" ops
     many = name in ("fetchmany", "part1", "partall")
@@ -244,9 +252,11 @@ def apply(cfg, st, target, name, arg, ignore_seen=False, scalar_row_unique=False
         found, exhausted = _take(cfg, st, F, 1)
         ns = _consume(cfg, st, F, found, exhausted)
         if found:
+            if name == "hold_next":
+                ns = ns._replace(hold=2)
             return ("det", ns, cfg.item(F, found[0][1]))
         if name == "hold_next":
-            ns = ns._replace(hold=False)
+            ns = ns._replace(hold=0)
         return ("det", ns, empty_for(name))
 
     # ---------------- everything that is left
@@ -254,6 +264,11 @@ def apply(cfg, st, target, name, arg, ignore_seen=False, scalar_row_unique=False
         found = _take_all(cfg, st, F)
         ns = _consume(cfg, st, F, found, True)
         items = [cfg.item(F, p) for _, p, _ in found]
+        if name == "freeze" and F.uniq is not None:
+            # "TODO: are we freezing the result with or without uniqueness applied?" (result.py):
+            # left open by the documentation, both are accepted
+            raw = [cfg.item(F, cfg.project(F, r)) for r in cfg.rows[st.pos:]]
+            return ("oneof", [(ns, ("F", items)), (ns, ("F", raw))])
         return ("det", ns, ("F" if name == "freeze" else "L", items))
 
     # ---------------- n rows
